@@ -40,6 +40,42 @@ func (where Where) Build(builder Builder) {
 	buildExprs(where.Exprs, builder, AndWithSpace)
 }
 
+// hasAndOr reports whether sql contains an AND or OR keyword, in any letter
+// case, delimited by anything that is not part of a word (space, tab, newline,
+// parenthesis, ...).
+func hasAndOr(sql string) bool {
+	start := -1
+	for i := 0; i <= len(sql); i++ {
+		if i < len(sql) {
+			if c := sql[i]; c == '_' || (c >= '0' && c <= '9') || (c >= 'a' && c <= 'z') || (c >= 'A' && c <= 'Z') {
+				if start < 0 {
+					start = i
+				}
+				continue
+			}
+		}
+		if start >= 0 {
+			if w := sql[start:i]; strings.EqualFold(w, "AND") || strings.EqualFold(w, "OR") {
+				return true
+			}
+			start = -1
+		}
+	}
+	return false
+}
+
+// needsParentheses reports whether a raw SQL expression has to be wrapped in
+// parentheses before it is combined with other conditions.
+func needsParentheses(expr Expression) bool {
+	switch v := expr.(type) {
+	case Expr:
+		return hasAndOr(v.SQL)
+	case NamedExpr:
+		return hasAndOr(v.SQL)
+	}
+	return false
+}
+
 func buildExprs(exprs []Expression, builder Builder, joinCond string) {
 	wrapInParentheses := false
 
@@ -56,24 +92,14 @@ func buildExprs(exprs []Expression, builder Builder, joinCond string) {
 			switch v := expr.(type) {
 			case OrConditions:
 				if len(v.Exprs) == 1 {
-					if e, ok := v.Exprs[0].(Expr); ok {
-						sql := strings.ToUpper(e.SQL)
-						wrapInParentheses = strings.Contains(sql, AndWithSpace) || strings.Contains(sql, OrWithSpace)
-					}
+					wrapInParentheses = needsParentheses(v.Exprs[0])
 				}
 			case AndConditions:
 				if len(v.Exprs) == 1 {
-					if e, ok := v.Exprs[0].(Expr); ok {
-						sql := strings.ToUpper(e.SQL)
-						wrapInParentheses = strings.Contains(sql, AndWithSpace) || strings.Contains(sql, OrWithSpace)
-					}
+					wrapInParentheses = needsParentheses(v.Exprs[0])
 				}
-			case Expr:
-				sql := strings.ToUpper(v.SQL)
-				wrapInParentheses = strings.Contains(sql, AndWithSpace) || strings.Contains(sql, OrWithSpace)
-			case NamedExpr:
-				sql := strings.ToUpper(v.SQL)
-				wrapInParentheses = strings.Contains(sql, AndWithSpace) || strings.Contains(sql, OrWithSpace)
+			case Expr, NamedExpr:
+				wrapInParentheses = needsParentheses(v)
 			}
 		}
 
@@ -188,12 +214,9 @@ func (not NotConditions) Build(builder Builder) {
 				negationBuilder.NegationBuild(builder)
 			} else {
 				builder.WriteString("NOT ")
-				e, wrapInParentheses := c.(Expr)
+				wrapInParentheses := needsParentheses(c)
 				if wrapInParentheses {
-					sql := strings.ToUpper(e.SQL)
-					if wrapInParentheses = strings.Contains(sql, AndWithSpace) || strings.Contains(sql, OrWithSpace); wrapInParentheses {
-						builder.WriteByte('(')
-					}
+					builder.WriteByte('(')
 				}
 
 				c.Build(builder)
@@ -223,12 +246,9 @@ func (not NotConditions) Build(builder Builder) {
 				}
 			}
 
-			e, wrapInParentheses := c.(Expr)
+			wrapInParentheses := needsParentheses(c)
 			if wrapInParentheses {
-				sql := strings.ToUpper(e.SQL)
-				if wrapInParentheses = strings.Contains(sql, AndWithSpace) || strings.Contains(sql, OrWithSpace); wrapInParentheses {
-					builder.WriteByte('(')
-				}
+				builder.WriteByte('(')
 			}
 
 			c.Build(builder)
